@@ -792,6 +792,130 @@ func (c *fnCtx) forStmt(o *out, ind int, x *ast.ForStmt) {
 	o.p(ind+1, "throw GoLib.Panic.fuel")
 }
 
+// ---- slice aliasing ----------------------------------------------------------------------------------------
+//
+// Slices are translated as values. That is only faithful if no two live names share a backing array that is written
+// through one of them. Conservative syntactic check: a binding `x = y`, `x := y[a:b]`, `x := s.f`, `s.f = y` … between
+// slice-typed places (anything but make / literals / append / conversions on the right) is an alias pair; the function is
+// rejected if, after the binding, an element of one side is written (x[i] = …, copy(x…, …), PutVarint(x, …)) and the other
+// side is mentioned after that write (inside a loop: anywhere in the loop).
+func (p *Pkg) checkAliasing(fi *funcInfo) {
+	type place struct {
+		name string
+		pos  token.Pos
+	}
+	placeOf := func(e ast.Expr) string { // "x" or "x.f"; "" if not a place
+		for {
+			switch x := e.(type) {
+			case *ast.ParenExpr:
+				e = x.X
+			case *ast.SliceExpr:
+				e = x.X
+			case *ast.Ident:
+				return x.Name
+			case *ast.SelectorExpr:
+				if id, ok := x.X.(*ast.Ident); ok {
+					return id.Name + "." + x.Sel.Name
+				}
+				return ""
+			default:
+				return ""
+			}
+		}
+	}
+	type pair struct {
+		l, r string
+		pos  token.Pos
+	}
+	var pairs []pair
+	var writes []place
+	var loops [][2]token.Pos
+	ast.Inspect(fi.decl.Body, func(n ast.Node) bool {
+		switch s := n.(type) {
+		case *ast.ForStmt:
+			loops = append(loops, [2]token.Pos{s.Pos(), s.End()})
+		case *ast.RangeStmt:
+			loops = append(loops, [2]token.Pos{s.Pos(), s.End()})
+		case *ast.AssignStmt:
+			if len(s.Lhs) == len(s.Rhs) {
+				for i, l := range s.Lhs {
+					lp, rp := placeOf(l), placeOf(s.Rhs[i])
+					if _, isIdx := l.(*ast.IndexExpr); isIdx {
+						continue
+					}
+					if lp != "" && rp != "" && lp != "_" {
+						pairs = append(pairs, pair{lp, rp, s.End()})
+					}
+				}
+			}
+			for _, l := range s.Lhs {
+				if ix, ok := l.(*ast.IndexExpr); ok {
+					if w := placeOf(ix.X); w != "" {
+						writes = append(writes, place{w, s.End()})
+					}
+				}
+			}
+		case *ast.CallExpr:
+			name := src(s.Fun)
+			if name == "copy" || (library[name] != nil && library[name].mut0) {
+				if w := placeOf(s.Args[0]); w != "" {
+					writes = append(writes, place{w, s.End()})
+				}
+			}
+		}
+		return true
+	})
+	if len(pairs) == 0 || len(writes) == 0 {
+		return
+	}
+	// mentions of a place
+	mentions := map[string][]token.Pos{}
+	ast.Inspect(fi.decl.Body, func(n ast.Node) bool {
+		switch x := n.(type) {
+		case *ast.SelectorExpr:
+			if id, ok := x.X.(*ast.Ident); ok {
+				mentions[id.Name+"."+x.Sel.Name] = append(mentions[id.Name+"."+x.Sel.Name], x.Pos())
+			}
+		case *ast.Ident:
+			mentions[x.Name] = append(mentions[x.Name], x.Pos())
+		}
+		return true
+	})
+	inLoop := func(a token.Pos) (token.Pos, token.Pos, bool) {
+		for _, l := range loops {
+			if l[0] <= a && a <= l[1] {
+				return l[0], l[1], true
+			}
+		}
+		return 0, 0, false
+	}
+	for _, pr := range pairs {
+		if pr.l == pr.r {
+			continue // b = b[n:] re-binds the same name
+		}
+		for _, w := range writes {
+			var other string
+			switch w.name {
+			case pr.l:
+				other = pr.r
+			case pr.r:
+				other = pr.l
+			default:
+				continue
+			}
+			lo, hi, loop := inLoop(w.pos)
+			if w.pos < pr.pos && !loop {
+				continue // written before the two names were bound together
+			}
+			for _, m := range mentions[other] {
+				if m > w.pos || (loop && lo <= m && m <= hi) {
+					bad(fi.decl, "possible aliasing: %s and %s may share a backing array, %s is written and %s is used afterwards (slices are translated as values)", pr.l, pr.r, w.name, other)
+				}
+			}
+		}
+	}
+}
+
 // ---- functions -------------------------------------------------------------------------------------------
 
 func (p *Pkg) translate(fi *funcInfo) {
@@ -810,6 +934,7 @@ func (p *Pkg) translate(fi *funcInfo) {
 		}
 	}()
 	p.sig(fi)
+	p.checkAliasing(fi)
 	c := &fnCtx{p: p, fi: fi, ext: map[string]bool{}, extUse: map[string]int{}, calls: map[string]bool{}}
 	c.push()
 	var o out
